@@ -1025,4 +1025,88 @@ theorem inv_step {s : State} (op : Op) (h : WF s) (hc : Cov s) (hw : s.changed.n
   | purge => exact ⟨wf_purge h, cov_purge h hc⟩
 
 
+
+theorem bestPivot_count (level : Nat) (all : List Entry) : ∀ (l : List Entry) (best : Option Entry) (cnt : Nat) (p : Entry),
+    1 ≤ cnt → (∀ b c, best = some b → coarsen b level = some c → 1 < groupCount c all) →
+    bestPivot level all l best cnt = some p → ∀ c, coarsen p level = some c → 1 < groupCount c all := by
+  intro l
+  induction l with
+  | nil =>
+    intro best cnt p _ hb h c hc
+    simp only [bestPivot] at h
+    exact hb p c h hc
+  | cons x xs ih =>
+    intro best cnt p hcnt hb h c hc
+    simp only [bestPivot] at h
+    split at h
+    · exact ih best cnt p hcnt hb h c hc
+    · rename_i cx hcx
+      split at h
+      · rename_i hgt
+        refine ih (some x) (groupCount cx all) p (by omega) ?_ h c hc
+        intro b c' hb' hc'
+        simp at hb'; subst hb'
+        rw [hcx] at hc'; simp at hc'; subst hc'
+        omega
+      · exact ih best cnt p hcnt hb h c hc
+
+theorem length_swapRemoveAll_eq {α} (p : α → Bool) (es : List α) :
+    (swapRemoveAll p es).length + (es.filter p).length = es.length := by
+  unfold swapRemoveAll
+  rw [length_swapRemoveAux_eq p es.length es (Nat.le_refl _)]
+  have := List.length_eq_countP_add_countP p (l := es)
+  rw [List.countP_eq_length_filter] at this
+  have h2 : es.countP (fun x => !p x) = es.countP (fun a => ¬ p a = true) := by
+    congr 1; funext a; cases p a <;> simp
+  omega
+
+/-- a promotion frees at least one slot -/
+theorem promoteLargestGroup_shrinks {es es' : List Entry} {level : Nat}
+    (h : promoteLargestGroup es level = some es') : es'.length + 1 ≤ es.length := by
+  unfold promoteLargestGroup at h
+  split at h
+  · simp at h
+  · rename_i p hp
+    split at h
+    · simp at h
+    · rename_i c hc
+      simp at h; subst h
+      have hcount := bestPivot_count level es es none 1 p (Nat.le_refl _) (by intro b c hb; simp at hb) hp c hc
+      have hlen := length_swapRemoveAll_eq (fun e => covers c e) es
+      unfold groupCount at hcount
+      simp only [List.length_append, List.length_singleton]
+      omega
+
+/-- the fuel of `promoteAndInsert` is never exhausted: two rounds always suffice -/
+theorem promoteAndInsert_fuel (new : Entry) (es : List Entry) (hcap : es.length ≤ CAP) (f : Nat) :
+    promoteAndInsert new (f + 2) es = promoteAndInsert new 2 es := by
+  have one : ∀ (g : Nat) (es' : List Entry), es'.length < CAP →
+      promoteAndInsert new (g + 1) es' = promoteAndInsert new 1 es' := by
+    intro g es' hl
+    simp only [promoteAndInsert]
+    cases refreshFirst new new.id es' with
+    | some r => rfl
+    | none => simp only [hl, if_true]
+  rw [show f + 2 = (f + 1) + 1 from rfl, show (2 : Nat) = 1 + 1 from rfl, promoteAndInsert, promoteAndInsert]
+  cases refreshFirst new new.id es with
+  | some r => rfl
+  | none =>
+    simp only
+    split
+    · rfl
+    · cases h1 : promoteLargestGroup es 1 with
+      | some es' =>
+        simp only
+        have := promoteLargestGroup_shrinks h1
+        rw [one f es' (by omega), show (1 : Nat) = 0 + 1 from rfl, one 0 es' (by omega)]
+      | none =>
+        simp only
+        cases h2 : promoteLargestGroup es 2 with
+        | some es' =>
+          simp only
+          have := promoteLargestGroup_shrinks h2
+          rw [one f es' (by omega), show (1 : Nat) = 0 + 1 from rfl, one 0 es' (by omega)]
+        | none => rfl
+
+
 end Subs
